@@ -139,6 +139,8 @@ class Den:
                 return self.next_elem(k)
             if rp(e) in (SL + 'get', SL + 'get_mut'):
                 return ('get', self.slice_of(e['args'][0]), self.of(e['args'][1]))
+            if rp(e) in (SL + 'first', SL + 'first_mut'):
+                return ('get', self.slice_of(e['args'][0]), ('int', 0, 'usize'))
             return ('some', ('ret', k))
         if t[0] == 'field':
             base = self.of(t[1])
